@@ -21,6 +21,7 @@ from .. import tables_c17
 from ..tables import TablesError
 
 PID = "C17"
+ORACLE_PROCS = 4      # exact-arithmetic oracle (pure python); small on purpose: the machine is shared
 PROOF_FILES = ["theories/Props/C17.v", "theories/Checker/TetMesh.v", "theories/Proofs/TetMeshPoly.v",
                "theories/Proofs/TetMeshBase.v", "theories/Proofs/TetMeshSym.v", "theories/Proofs/TetMeshBox.v",
                "theories/Proofs/TetMeshCyl.v", "theories/Proofs/TetMeshIcoKey.v", "theories/Proofs/TetMeshIcoPure.v",
@@ -366,8 +367,18 @@ def run(tier, seed, replay=None):
         tables_ok = False
         R.proof_broken.append(f"Gen/TetTables.v cannot be regenerated from the source (theorems about the cube/box/"
                               f"icosahedron/cylinder tables no longer tied to the code): {str(e)[:300]}")
-    R.check_proofs(PROOF_FILES)
+    import time as _t
+    T0 = _t.time()
+    phases = {}
+
+    def lap(name):
+        nonlocal T0
+        phases[name] = round(_t.time() - T0, 1)
+        T0 = _t.time()
+    R.check_proofs(PROOF_FILES, build_targets=["theories/Props/C17.vo", "theories/Model/TetMeshRun.vo",
+                                               "theories/Checker/TetMesh.vo"])
     R.cov["tables_regenerated"] = tables_ok
+    lap("proofs")
 
     # 2. cases
     cases = []
@@ -381,6 +392,7 @@ def run(tier, seed, replay=None):
         cases += gen_cases(R.rng, tier)
     results = run_impl_cases(cases, "impl")
     R.cov["evaluations"] = len(cases)
+    lap("implementation")
 
     # 3. exact oracle on every result (process pool)
     cert_limit = 700 if tier == "quick" else 8000
@@ -388,8 +400,9 @@ def run(tier, seed, replay=None):
     for c, r in zip(cases, results):
         nt = (r.get("shapes") or [[0], [0]])[1][0] if "exc" not in r else 0
         jobs.append((c, r, 0 < nt <= cert_limit))
-    with mp.get_context("fork").Pool(min(cm.NCPU, 16)) as pool:
+    with mp.get_context("fork").Pool(ORACLE_PROCS) as pool:
         verdicts = pool.map(_judge, jobs, chunksize=1)
+    lap("oracle")
     bad = []
     distinct = set()
     hist = {}
@@ -471,6 +484,7 @@ def run(tier, seed, replay=None):
                     validated += 1
     except RuntimeError as e:
         R.corr_broken.append(f"model evaluation failed: {str(e)[:500]}")
+    lap("coq_model")
     helpers_validated = 0
     try:
         outs = cm.coq_eval_lines(PID, HEADER_MODEL, h_exprs, tag="helpers", per_file=max(1, len(h_exprs) // 16 + 1))
@@ -485,6 +499,7 @@ def run(tier, seed, replay=None):
     except RuntimeError as e:
         R.corr_broken.append(f"helper model evaluation failed: {str(e)[:500]}")
     R.cov["helper_traces_validated"] = helpers_validated
+    lap("coq_helpers")
     cert_true = 0
     try:
         outs = cm.coq_eval_lines(PID, HEADER_CERT, c_exprs, tag="cert", per_file=max(1, len(c_exprs) // 16 + 1))
@@ -499,6 +514,8 @@ def run(tier, seed, replay=None):
                 bad.append((cases[i], ["mesh_cert rejected the mesh"]))
     except RuntimeError as e:
         R.corr_broken.append(f"certificate evaluation failed: {str(e)[:500]}")
+    lap("coq_cert")
+    R.cov["phase_wall_s"] = phases
     R.cov["traces_validated_against_impl"] = validated
     R.cov["correspondence_disagreements"] = diffs
     R.cov["mesh_cert_evaluated"] = len(c_exprs)
@@ -513,7 +530,7 @@ def run(tier, seed, replay=None):
     if (R.proof_broken or R.corr_broken) and not bad and not replay:
         extra = gen_cases(R.rng, "thorough")
         res2 = run_impl_cases(extra, "search")
-        with mp.get_context("fork").Pool(min(cm.NCPU, 16)) as pool:
+        with mp.get_context("fork").Pool(ORACLE_PROCS) as pool:
             v2 = pool.map(_judge, [(c, r, False) for c, r in zip(extra, res2)], chunksize=1)
         R.cov["search_evaluations"] = len(extra)
         for c, v in zip(extra, v2):
